@@ -1,8 +1,23 @@
-Check (C03_video_durations_are_dts_differences : forall w, WInv w -> durations_of (vsamples w) (w_vlast_delta w) = durations_spec (map s_dts (vsamples w))).
-Check (C03_audio_durations_are_pts_differences : forall w, WInv w -> durations_of (asamples w) (w_alast_delta w) = durations_spec (map s_pts (asamples w))).
-Check (C03_invariant_holds_in_every_reachable_state : forall b script m0 ops, build b script = inl m0 -> WInv (m_writer (fst (run m0 ops)))).
-Check (C03_no_accumulated_drift : forall (dts : list N) (k : nat), StronglySorted (fun a b => (a <= b)%N) dts -> (k < length dts)%nat -> sumN (firstn k (durations_spec dts)) = (nth k dts 0 - nth 0 dts 0)%N).
-Check (C03_composition_offsets_fit_in_every_reachable_state : forall b script m0 ops, build b script = inl m0 -> cts_all_fit (m_writer (fst (run m0 ops)))).
-Check (C03_composition_offset_exact : forall s, (-2147483648 <= Z.of_N (s_pts s) - Z.of_N (s_dts s) <= 2147483647)%Z -> cts_of s = (Z.of_N (s_pts s) - Z.of_N (s_dts s))%Z).
-Check (C03_stts_runs_are_lossless : forall l : list N, expand_runs (rle N.eqb l) = l).
-Check (C03_ctts_runs_are_lossless : forall l : list Z, expand_runs (rle Z.eqb l) = l).
+Open Scope N_scope.
+Check (C03_video_durations_are_dts_differences : (forall w,
+  WInv w -> durations_of (vsamples w) (w_vlast_delta w) = durations_spec (map s_dts (vsamples w)))%type).
+Check (C03_audio_durations_are_pts_differences : (forall w,
+  WInv w -> durations_of (asamples w) (w_alast_delta w) = durations_spec (map s_pts (asamples w)))%type).
+Check (C03_invariant_holds_in_every_reachable_state : (forall b script m0 ops,
+  build b script = inl m0 -> WInv (m_writer (fst (run m0 ops))))%type).
+Check (C03_no_accumulated_drift : (forall (dts : list N) (k : nat),
+  StronglySorted (fun a b => a <= b) dts -> (k < length dts)%nat ->
+  sumN (firstn k (durations_spec dts)) = nth k dts 0 - nth 0 dts 0)%type).
+Check (C03_composition_offsets_fit_in_every_reachable_state : (forall b script m0 ops,
+  build b script = inl m0 -> cts_all_fit (m_writer (fst (run m0 ops))))%type).
+Check (C03_composition_offset_exact : (forall s,
+  (-2147483648 <= Z.of_N (s_pts s) - Z.of_N (s_dts s) <= 2147483647)%Z ->
+  cts_of s = (Z.of_N (s_pts s) - Z.of_N (s_dts s))%Z)%type).
+Check (C03_stts_runs_are_lossless : (forall l : list N, expand_runs (rle N.eqb l) = l)%type).
+Check (C03_ctts_runs_are_lossless : (forall l : list Z, expand_runs (rle Z.eqb l) = l)%type).
+Check (C03_finished_file_timing_is_exact : (forall b m0 ops m rs s,
+  build b [] = inl m0 -> run m0 ops = (m, rs) -> In (RStats s) rs ->
+  Forall op_payload_ok ops -> len (sink_of m) < 4294967296 ->
+  sumN (durations_of (vsamples (m_writer m)) (w_vlast_delta (m_writer m))) < 4294967296 ->
+  sumN (durations_of (asamples (m_writer m)) (w_alast_delta (m_writer m))) < 4294967296 ->
+  check_C03 b ops (map class_of rs) (sink_of m) = true)%type).
